@@ -82,17 +82,20 @@ Definition dominates (s0 s1 : bsnap) : Prop :=
 Definition ptr_unused (d : sdb) (p : nat) : Prop :=
   forall e, In e (entries (d_buf d)) -> a_ptr (snd e) <> p.
 
-Lemma poke_bal_unused p bal (b : sbuf aval) :
-  (forall e, In e (entries b) -> a_ptr (snd e) <> p) -> poke_bal p bal b = b.
+Lemma poke_buf_unused p g (b : sbuf aval) :
+  (forall e, In e (entries b) -> a_ptr (snd e) <> p) -> poke_buf p g b = b.
 Proof.
-  intros H. destruct b as [ents idx n]. unfold poke_bal. cbn in *. f_equal.
+  intros H. destruct b as [ents idx n]. unfold poke_buf. cbn in *. f_equal.
   rewrite <- (map_id ents) at 2. apply map_ext_in. intros e Hin.
   destruct (Nat.eqb_spec (a_ptr (snd e)) p); auto. exfalso. eapply H; eauto.
 Qed.
 
 Definition ok_op (d0 : sdb) (s0 : bsnap) (d : sdb) (o : op) : Prop :=
   match o with
-  | OAAdd h _ | OASub h _ => forall ah, nth_error (d_ah d) h = Some ah -> ptr_unused d (ah_ptr ah)
+  | OAAdd h _ | OASub h _ | OASetF h _ _ => forall ah, nth_error (d_ah d) h = Some ah -> ptr_unused d (ah_ptr ah)
+  | OSetCode h _ _ => forall hs p, nth_error (x_hst (d_x d)) h = Some hs -> hs_ptr hs = Some p -> ptr_unused d p
+  | OSRollback j => forall rev, nth_error (x_ssnaps (d_x d)) j = Some rev -> bs_state s0 <= rev
+  | OSetRoot _ | OReopenAt _ | OApply => False
   | OStage h => forall c ob, live_obj d h = Ok (c, ob) -> forall o0, alookup c (d_cache d0) = Some o0 -> ob = o0
   | OCRollback j =>
       forall h rev c ob, nth_error (d_csnaps d) j = Some (h, rev) -> live_obj d h = Ok (c, ob) ->
@@ -477,13 +480,14 @@ Proof.
   intros W0 S0 HE Hok H. destruct o; cbn [step] in H; cbn [ok_op] in Hok; try contradiction.
   - (* OPut *)
     apply bind_ok in H. destruct H as (cur & _ & H). inversion H; subst.
-    apply (ext_fields d0 (set_buf d (sb_put (d_buf d) (a, mk_aval (d_nptr d) v (match cur with Some (_, r) => r | None => [] end)))));
-      [now apply ext_put|..]; reflexivity.
+    eapply ext_fields; [eapply ext_put; exact HE|..]; reflexivity.
   - (* OOpen *)
     apply bind_ok in H. destruct H as (cur & _ & H).
-    destruct (alookup c (d_cache d)) as [o|] eqn:Ec; inversion H; subst.
-    + now apply ext_open_alias.
-    + apply ext_open_private; auto.
+    assert (G : forall r hs, Ext d0 (open_handle d c r hs)).
+    { intros r hs. unfold open_handle. destruct (alookup c (d_cache d)) as [o|] eqn:Ec.
+      - eapply ext_fields; [apply (ext_open_alias d0 d c o HE Ec)|..]; reflexivity.
+      - eapply ext_fields; [apply (ext_open_private d0 d c r HE)|..]; reflexivity. }
+    destruct cur as [[p [f r]]|]; inversion H; subst; apply G.
   - (* OSet *)
     apply bind_ok in H. destruct H as (co & _ & H). eapply ext_heap_put; eauto.
   - (* ODel *)
@@ -531,22 +535,60 @@ Proof.
     eapply ext_fields; [exact HE|..]; reflexivity.
   - (* OAAdd: the handle has not been put, no buffered entry is touched *)
     apply bind_ok in H. destruct H as (ah & Ha & H). apply of_opt_ok in Ha. inversion H; subst.
-    eapply ext_fields; [exact HE|..]; try reflexivity. cbn. apply poke_bal_unused. now apply Hok.
+    eapply ext_fields; [exact HE|..]; try reflexivity. cbn. apply poke_buf_unused. now apply Hok.
   - (* OASub *)
     apply bind_ok in H. destruct H as (ah & Ha & H). apply of_opt_ok in Ha. inversion H; subst.
-    eapply ext_fields; [exact HE|..]; try reflexivity. cbn. apply poke_bal_unused. now apply Hok.
+    eapply ext_fields; [exact HE|..]; try reflexivity. cbn. apply poke_buf_unused. now apply Hok.
   - (* OAPut *)
     apply bind_ok in H. destruct H as (ah & Ha & H). inversion H; subst. now apply ext_put.
   - (* OAReset *)
     apply bind_ok in H. destruct H as (ah & Ha & H). inversion H; subst.
     eapply ext_fields; [exact HE|..]; reflexivity.
+  - (* OACreate *)
+    apply bind_ok in H. destruct H as (cur & _ & H). destruct cur; inversion H; subst; [exact HE|].
+    eapply ext_fields; [exact HE|..]; reflexivity.
+  - (* OASetF *)
+    apply bind_ok in H. destruct H as (ah & Ha & H). apply of_opt_ok in Ha. inversion H; subst.
+    eapply ext_fields; [exact HE|..]; try reflexivity. cbn. apply poke_buf_unused. now apply Hok.
+  - (* OOpenAs *)
+    apply bind_ok in H. destruct H as (ah & Ha & H). inversion H; subst.
+    unfold open_handle. destruct (alookup (ah_aid ah) (d_cache d)) as [o|] eqn:Ec.
+    + eapply ext_fields; [apply (ext_open_alias d0 d _ o HE Ec)|..]; reflexivity.
+    + eapply ext_fields; [apply (ext_open_private d0 d (ah_aid ah) (ah_root ah) HE)|..]; reflexivity.
+  - (* OSetCode: the embedded State is not a buffered object *)
+    apply bind_ok in H. destruct H as (hs & Hh & H). apply of_opt_ok in Hh. inversion H; subst.
+    destruct (hs_ptr hs) as [p|] eqn:Ep.
+    + eapply ext_fields; [exact HE|..]; try reflexivity. cbn. apply poke_buf_unused. now apply (Hok hs p).
+    + eapply ext_fields; [exact HE|..]; reflexivity.
+  - (* OGetCode *)
+    apply bind_ok in H. destruct H as (hs & Hh & H).
+    destruct (hs_code hs); [inversion H; subst; eapply ext_fields; [exact HE|..]; reflexivity|].
+    destruct (f_code (hs_f hs) =? 0)%N; [inversion H; subst; eapply ext_fields; [exact HE|..]; reflexivity|].
+    destruct (existsb _ _); inversion H; subst; eapply ext_fields; try exact HE; reflexivity.
+  - (* ORawSet *)
+    apply bind_ok in H. destruct H as (hs & Hh & H). inversion H; subst. eapply ext_fields; [exact HE|..]; reflexivity.
+  - (* ORawGet *)
+    apply bind_ok in H. destruct H as (hs & Hh & H). inversion H; subst. eapply ext_fields; [exact HE|..]; reflexivity.
+  - (* OSSnap *)
+    inversion H; subst. eapply ext_fields; [exact HE|..]; reflexivity.
+  - (* OSRollback: not below the revision of the block snapshot *)
+    apply bind_ok in H. destruct H as (rev & Hr & H). apply of_opt_ok in Hr.
+    apply bind_ok in H. destruct H as (b & Hb & H). inversion H; subst.
+    pose proof (Hok rev Hr) as Hge.
+    destruct (snapshot_lookup d0 s0 W0 S0) as (Hs & _ & _).
+    destruct HE as ((Wb & Hnd & Hw & Hown) & (ext & Hext) & E2 & E3 & Hf).
+    destruct (sb_rollback_inv _ _ _ Wb Hb) as (Hle & Wb' & Hent & Hnx).
+    split; [|split; [|split; [|split]]]; auto.
+    + split; auto.
+    + exists (firstn (rev - length (entries (d_buf d0))) ext). cbn. rewrite Hent, Hext.
+      apply firstn_app_prefix. destruct W0 as ((Hn0 & _) & _). rewrite <- Hn0, <- Hs. exact Hge.
 Qed.
 
-(** handle_mutation_invisible: Add/SubBalance through an AccountState handle whose newState
-    has not been stored by PutState changes no buffer, cache, storage, trie or store — hence no
-    read, no export and no root *)
+(** handle_mutation_invisible: a setter (AddBalance, SubBalance, SetNonce, SetCodeHash, SetRP)
+    through an AccountState handle whose newState has not been stored by PutState changes no
+    buffer, cache, storage, trie or store — hence no read, no export and no root *)
 Theorem handle_mutation_invisible d h ah o d' :
-  (exists v, o = OAAdd h v \/ o = OASub h v) ->
+  (exists v, o = OAAdd h v \/ o = OASub h v \/ exists x, o = OASetF h x v) ->
   nth_error (d_ah d) h = Some ah -> ptr_unused d (ah_ptr ah) -> step d o = Ok d' ->
   d_buf d' = d_buf d /\ d_cache d' = d_cache d /\ d_heap d' = d_heap d /\ d_handles d' = d_handles d /\
   d_trie d' = d_trie d /\ d_store_a d' = d_store_a d /\ d_store_v d' = d_store_v d /\
@@ -555,8 +597,8 @@ Proof.
   intros (v & Ho) Ha Hu H.
   assert (Hb : d_buf d' = d_buf d /\ d_cache d' = d_cache d /\ d_heap d' = d_heap d /\ d_handles d' = d_handles d /\
                d_trie d' = d_trie d /\ d_store_a d' = d_store_a d /\ d_store_v d' = d_store_v d).
-  { destruct Ho as [-> | ->]; cbn [step] in H; rewrite Ha in H; cbn in H; inversion H; subst; cbn;
-      rewrite (poke_bal_unused _ _ _ Hu); repeat split. }
+  { destruct Ho as [-> | [-> | (x & ->)]]; cbn [step] in H; rewrite Ha in H; cbn in H; inversion H; subst; cbn;
+      rewrite (poke_buf_unused _ _ _ Hu); repeat split. }
   destruct Hb as (B1 & B2 & B3 & B4 & B5 & B6 & B7). repeat split; auto.
   intros a. unfold get_state, get_state_ptr, trie_state. now rewrite B1, B5, B6.
 Qed.
@@ -604,7 +646,7 @@ Proof.
   - intros c o k Hc0. split; [now rewrite Hc|].
     destruct (dwf_cached d0 c o W0 Hc0) as (st0 & Ho0 & W0').
     destruct (Hobj c o st0 Hc0 Ho0) as (st & Ho & Wst & He & Htr & _).
-    unfold get_data. unfold obj in *. rewrite Ho, Ho0. cbn.
+    unfold get_data, initial_data. unfold obj in *. rewrite Ho, Ho0. cbn.
     rewrite (get_latest _ k Wst), (get_latest _ k W0'), He, Htr, Hsv. reflexivity.
 Qed.
 
